@@ -63,6 +63,13 @@ func (r *Run) knownFacts(st *State, t Term, T types.Type) {
 		r.assume(st, app("Bool", "<=", app("Int", "if_val", t), r.heapGet(st, r.eng.heapKeyAlloc())))
 	case *types.Struct:
 		r.assume(st, r.eng.u.okTerm(T, t, r.heapGet(st, r.eng.heapKeyAlloc())))
+		// slice-typed fields of a struct value are well-formed slices (one level)
+		si := r.eng.u.structOf(T)
+		for i := 0; i < tt.NumFields(); i++ {
+			if _, ok := types.Unalias(tt.Field(i).Type()).Underlying().(*types.Slice); ok {
+				r.assume(st, app("Bool", "wf_slice", app("Slice", si.fields[i], t)))
+			}
+		}
 	}
 }
 
